@@ -13,5 +13,7 @@ func TestVerifReplay(t *testing.T) {
 		"VerifC14QuorumThorough": VerifC14QuorumThorough,
 		"VerifC15Quick":          VerifC15Quick,
 		"VerifC15Thorough":       VerifC15Thorough,
+		"VerifC15DeepQuick":      VerifC15DeepQuick,
+		"VerifC15Deep":           VerifC15Deep,
 	})
 }
